@@ -54,6 +54,12 @@ Inductive event :=
 | ETimer (tid : Z)                        (* a retry timer armed by the producer fires *)
 | EVersion (r : Z)                        (* get_api_version fires: 0 -> _api_versions = 0, 1 -> a table, else Failure r *)
 | EResult (v : value)                     (* the outstanding send_produce_request Deferred fires *)
+| EResultOmit (v : value)                 (* ... with a result OUTSIDE the client contract: some payload of the request is
+                                             neither answered nor failed (a broker omitted a partition from its response;
+                                             client.py:1357 drops missing keys).  Outside the honest-broker fault model. *)
+| EBroken (b : bool)                      (* from now on (b = true) building the message set or handing the request to the
+                                             client raises: create_message_set with a codec whose library is missing,
+                                             send_produce_request raising synchronously (known finding F-C01-5) *)
 | EStop (cv : option value).              (* stop(); cv = what the client's Deferred does when cancelled (None: nothing) *)
 
 Inductive outcome :=
@@ -90,42 +96,48 @@ Record state := {
   stopping : bool; looper : bool;                (* self.stopping; the LoopingCall is running *)
   api : Z;                                       (* client._api_versions: 0 None, 1 the integer 0, 2 a table *)
   cache : list (Z * (Z * bool));                 (* topic -> (topic_errors[topic], topic in topic_partitions) *)
-  nsend : Z; nload : Z; ntimer : Z               (* identifiers handed out so far *)
+  nsend : Z; nload : Z; ntimer : Z;              (* identifiers handed out so far *)
+  broken : bool                                  (* building / handing over a produce request raises (EBroken) *)
 }.
 
 Definition init_state (has_t : bool) (api0 : Z) (cache0 : list (Z * (Z * bool))) : state :=
   {| queue := []; wcnt := 0; wbytes := 0; outstanding := []; ph := Idle; attempts := 0; didx := 0; nsp := 0;
-     stopping := false; looper := has_t; api := api0; cache := cache0; nsend := 0; nload := 0; ntimer := 0 |}.
+     stopping := false; looper := has_t; api := api0; cache := cache0; nsend := 0; nload := 0; ntimer := 0;
+     broken := false |}.
 
 (* record updates *)
 Definition set_queue (s : state) q c b :=
   {| queue := q; wcnt := c; wbytes := b; outstanding := outstanding s; ph := ph s; attempts := attempts s;
      didx := didx s; nsp := nsp s; stopping := stopping s; looper := looper s; api := api s; cache := cache s;
-     nsend := nsend s; nload := nload s; ntimer := ntimer s |}.
+     nsend := nsend s; nload := nload s; ntimer := ntimer s; broken := broken s |}.
 Definition set_outstanding (s : state) o :=
   {| queue := queue s; wcnt := wcnt s; wbytes := wbytes s; outstanding := o; ph := ph s; attempts := attempts s;
      didx := didx s; nsp := nsp s; stopping := stopping s; looper := looper s; api := api s; cache := cache s;
-     nsend := nsend s; nload := nload s; ntimer := ntimer s |}.
+     nsend := nsend s; nload := nload s; ntimer := ntimer s; broken := broken s |}.
 Definition set_ph (s : state) p :=
   {| queue := queue s; wcnt := wcnt s; wbytes := wbytes s; outstanding := outstanding s; ph := p; attempts := attempts s;
      didx := didx s; nsp := nsp s; stopping := stopping s; looper := looper s; api := api s; cache := cache s;
-     nsend := nsend s; nload := nload s; ntimer := ntimer s |}.
+     nsend := nsend s; nload := nload s; ntimer := ntimer s; broken := broken s |}.
 Definition set_retry (s : state) a d n :=
   {| queue := queue s; wcnt := wcnt s; wbytes := wbytes s; outstanding := outstanding s; ph := ph s; attempts := a;
      didx := d; nsp := n; stopping := stopping s; looper := looper s; api := api s; cache := cache s;
-     nsend := nsend s; nload := nload s; ntimer := ntimer s |}.
+     nsend := nsend s; nload := nload s; ntimer := ntimer s; broken := broken s |}.
 Definition set_flags (s : state) st lp :=
   {| queue := queue s; wcnt := wcnt s; wbytes := wbytes s; outstanding := outstanding s; ph := ph s; attempts := attempts s;
      didx := didx s; nsp := nsp s; stopping := st; looper := lp; api := api s; cache := cache s;
-     nsend := nsend s; nload := nload s; ntimer := ntimer s |}.
+     nsend := nsend s; nload := nload s; ntimer := ntimer s; broken := broken s |}.
 Definition set_client (s : state) a c :=
   {| queue := queue s; wcnt := wcnt s; wbytes := wbytes s; outstanding := outstanding s; ph := ph s; attempts := attempts s;
      didx := didx s; nsp := nsp s; stopping := stopping s; looper := looper s; api := a; cache := c;
-     nsend := nsend s; nload := nload s; ntimer := ntimer s |}.
+     nsend := nsend s; nload := nload s; ntimer := ntimer s; broken := broken s |}.
+Definition set_broken (s : state) b :=
+  {| queue := queue s; wcnt := wcnt s; wbytes := wbytes s; outstanding := outstanding s; ph := ph s; attempts := attempts s;
+     didx := didx s; nsp := nsp s; stopping := stopping s; looper := looper s; api := api s; cache := cache s;
+     nsend := nsend s; nload := nload s; ntimer := ntimer s; broken := b |}.
 Definition set_ids (s : state) a b c :=
   {| queue := queue s; wcnt := wcnt s; wbytes := wbytes s; outstanding := outstanding s; ph := ph s; attempts := attempts s;
      didx := didx s; nsp := nsp s; stopping := stopping s; looper := looper s; api := api s; cache := cache s;
-     nsend := a; nload := b; ntimer := c |}.
+     nsend := a; nload := b; ntimer := c; broken := broken s |}.
 
 (* ------------------------------------------------------------------ the client's metadata cache
    client.py:331-332 metadata_error_for_topic = topic_errors.get(topic, 3); 274-301 reset_topic_metadata *)
@@ -258,6 +270,10 @@ Definition send_requests (s : state) (reqs : list send) (res : list lres) : R :=
     match pls with
     | [] => (s1, o1, true)                                                       (* 410-412 *)
     | _ =>
+        if broken s1 then (s1, o1, true)   (* create_message_set / send_produce_request raised (403-417): the exception
+                                              goes up the chain, _complete_batch_send logs it (433-438); no Deferred of the
+                                              payloads is fired - F-C01-5 *)
+        else
         let s2 := set_retry (set_ph s1 (Sending pls (map p_tp pls))) (attempts s1 + 1) (didx s1) 1 in
         (s2, o1 ++ [OSendProduce 1 (magic_of s1) (map payload_view pls)], false) (* 414-420 *)
     end.
@@ -312,6 +328,20 @@ Definition result_ok (c : cfg) (cur : list tp) (v : value) : bool :=
       let f := map fst fs in
       match fs with [] => false | _ => true end && nodup_tp (r ++ f) && subset_tp (r ++ f) cur &&
       (if c_acks c =? 0 then match rs with [] => true | _ => false end else subset_tp cur (r ++ f))
+  end.
+
+(* a result in which some payload of the request is neither answered nor failed *)
+Definition omit_ok (c : cfg) (cur : list tp) (v : value) : bool :=
+  match v with
+  | VResp rs =>
+      let r := map (fun e => fst (fst e)) rs in
+      negb (c_acks c =? 0) && nodup_tp r && subset_tp r cur && negb (subset_tp cur r)
+  | VFailed rs fs =>
+      let r := map (fun e => fst (fst e)) rs in
+      let f := map fst fs in
+      match fs with [] => false | _ => true end && negb (c_acks c =? 0) && nodup_tp (r ++ f) && subset_tp (r ++ f) cur &&
+      negb (subset_tp cur (r ++ f))
+  | _ => false
   end.
 
 (* the loop over the responses (685-696): error -> a failed payload (with "reset the topic" for NotLeader /
@@ -489,6 +519,8 @@ Definition core (c : cfg) (s : state) (e : event) : state * list output * epi :=
           let '(s2, o2, done) := lookups_progress s1 reqs ls1 in fin_if (s2, o1 ++ o2, done)
       | RetryWait pls cur tid' =>                                   (* _do_retry (565-579) *)
           if tid' =? tid then
+            if broken s then (s, [], Fin)   (* send_produce_request raised inside _do_retry (572): the batch ends, F-C01-5 *)
+            else
             (set_retry (set_ph s (Sending pls cur)) (attempts s + 1) (didx s) (nsp s + 1),
              [OSendProduce (nsp s + 1) (magic_of s)
                            (map payload_view (filter (fun p => tpmem (p_tp p) cur) pls))], NoEpi)
@@ -508,6 +540,12 @@ Definition core (c : cfg) (s : state) (e : event) : state * list output * epi :=
       | Sending pls cur => if result_ok c cur v then fin_if (handle_result c s pls cur v) else (s, [], NoEpi)
       | _ => (s, [], NoEpi)
       end
+  | EResultOmit v =>                                                 (* the code does not notice the omission *)
+      match ph s with
+      | Sending pls cur => if omit_ok c cur v then fin_if (handle_result c s pls cur v) else (s, [], NoEpi)
+      | _ => (s, [], NoEpi)
+      end
+  | EBroken b => (set_broken s b, [], NoEpi)
   | EStop _ => (s, [], NoEpi)
   end.
 
@@ -576,6 +614,11 @@ Fixpoint parse_events (fuel : nat) (l : list Z) : option (list event) :=
                    | Some (v, r') => option_map (cons (EResult v)) (parse_events fuel' r')
                    | None => None
                    end
+      | 12 :: r => match parse_value r with
+                   | Some (v, r') => option_map (cons (EResultOmit v)) (parse_events fuel' r')
+                   | None => None
+                   end
+      | 13 :: b :: r => option_map (cons (EBroken (negb (b =? 0)))) (parse_events fuel' r)
       | 11 :: -1 :: r => option_map (cons (EStop None)) (parse_events fuel' r)
       | 11 :: r => match parse_value r with
                    | Some (v, r') => option_map (cons (EStop (Some v))) (parse_events fuel' r')
